@@ -120,6 +120,22 @@ def valve_monitor(chk):
                     chk.violation(key, f"filtration {f}: " + what, {"kind": "scenario", "scenario": {"opts": {"tank_raw": 1000.0, "cover_rate": 25.0}, "actions": list(trace)}})
                     break
         r.world.close()
+    # the level set changes WHILE the valve is open: the pool is opened (overflow set: low 20) while the tank refills from a drop that
+    # happened during the cover travel; the valve must close at the threshold in force NOW, not at the one in force when it opened
+    for lvl in (26, 27, 31, 33):
+        acts = [["temp", "pool", 28.0], ["tank", 50], ["mqtt", "/settings/mode", "eco"], ["run", 60], ["mqtt", "/settings/mode", "standby"], ["run", 3], ["tank", 18],
+                ["until_state", "Tank", "low", 60], ["until_state", "Filtration", "standby", 400], ["run", 12], ["tank", lvl], ["run", 60]]
+        r = scenario.Runner({"tank_raw": 1000.0, "cover_rate": 2.0}, [])
+        for a in acts:
+            r.do(a)
+        f, st, open_ = r.sys.state("Filtration"), r.sys.state("Tank"), r.sys.pin_on("main")
+        r.world.close()
+        if f.startswith("standby") and cfg["overflow"]["low"] + cfg["hyst"] <= lvl:
+            polls += 1
+            if st not in ("normal", "high") or open_:
+                bad += 1
+                chk.violation("valve-not-closed-after-recovery", f"filtration {f} (overflow level set in force since the pool was opened during the refill): level {lvl} ≥ low + hyst = {cfg['overflow']['low'] + cfg['hyst']} for 60 s but tank is {st}, valve open: {open_}",
+                              {"kind": "scenario", "scenario": {"opts": {"tank_raw": 1000.0, "cover_rate": 2.0}, "actions": acts}})
     chk.correspondence("C05 monitor on the real composed system: valve/level traces against config.ini's thresholds for the mode's level set (with eco/open round trips) and the 2 h / 6 h limits (incl. force-empty toggled while halted, wintering)", n + polls, bad)
 
 
